@@ -156,6 +156,20 @@ theorem fact_writePayload_skips_stored_payload :
        "markPayloadEventSaved: tx.GetShelfWriter(payloadEventShelf).Put(stoabs.NewHashKey(ref), <*ast.ArrayType>{1})"] :=
   ⟨rfl, rfl, rfl, rfl, rfl⟩
 
+/-- the AfterCommit notification of State.WritePayload is guarded by `payloadWritten`, which is false at the start and set
+    only after the "payload event already saved" return, right before saveEvent: a WritePayload that saves nothing
+    notifies nobody (`Cfg.notifyGuarded`; theorem calls_bounded_by_budget needs it) -/
+theorem fact_writePayload_notifies_only_what_it_saved :
+    Facts.C14.writePayloadGuardTrace =
+      ["top: payloadWritten := false",
+       "tx: if isPayloadEventSaved(tx, transaction.Ref()) => return nil",
+       "tx: payloadWritten = true",
+       "tx: s.saveEvent(tx, event)",
+       "tx: markPayloadEventSaved(tx, transaction.Ref())",
+       "tx: return s.payloadStore.writePayload(tx, payloadHash, data)",
+       "afterCommit: if payloadWritten => s.notify(event)"] ∧
+    Facts.C14.writePayloadNotifyGuarded = true ∧ Facts.C14.writePayloadReturnsEarlyWhenPresent = true := ⟨rfl, rfl, rfl⟩
+
 /-- the write-back of notifyNow leaves an event alone that was removed (Finished) while the receiver ran -/
 theorem fact_write_back_skips_removed_event : Facts.C14.writeBackSkipsGone = true := by decide
 
